@@ -29,14 +29,18 @@ func (d *dir) ReadDir(n int) ([]hackpadfs.DirEntry, error) {
 	if err != nil {
 		return nil, err
 	}
-	if n > 0 && d.offset == len(entries) {
+	if n <= 0 {
+		d.offset = len(entries)
+		return entries, nil
+	}
+	if d.offset >= len(entries) {
 		return nil, io.EOF
 	}
-	if n <= 0 || d.offset+n > len(entries) {
-		d.offset = n
-	} else {
-		entries = entries[d.offset : d.offset+n]
-		d.offset += n
+	end := d.offset + n
+	if end > len(entries) {
+		end = len(entries)
 	}
+	entries = entries[d.offset:end]
+	d.offset = end
 	return entries, nil
 }
